@@ -236,6 +236,40 @@ def handle (toks : List String) : String :=
     | some algo, some n, some k0, some k, some m =>
       withCodec algo n k0 (fun {p} c => toHex (natList (Pff.Facade.encode c (eltList p m) k)))
     | _, _, _, _, _ => "bad-op"
+  | ["prep", algo, n, k0, k, msg, ecc, en, ec, oe] =>
+    -- what ECCMan.decode hands to the library
+    match algo.toNat?, n.toNat?, k0.toNat?, k.toNat?, parseHex msg, parseHex ecc, ec.toNat? with
+    | some algo, some n, some k0, some k, some m, some e, some ec =>
+      withCodec algo n k0 (fun {p} c =>
+        match Pff.Facade.prepareDecode c (eltList p m) (eltList p e) k (en == "1") (Pff.GF.Elt.ofNat p ec) (oe == "1") with
+        | none => "early"
+        | some call =>
+          let ep := match call.erasePos with | none => "none" | some l => showNums l
+          s!"{toHex (natList call.word)} {call.nsym} {ep} {if call.onlyErasures then 1 else 0} {call.padLen}")
+    | _, _, _, _, _, _, _ => "bad-op"
+  | ["dec", algo, n, k0, k, msg, ecc, en, ec, oe, lib] =>
+    -- ECCMan.decode with the library replaced by its recorded result `ok:msghex:ecchex` / `err:kind`
+    match algo.toNat?, n.toNat?, k0.toNat?, k.toNat?, parseHex msg, parseHex ecc, ec.toNat? with
+    | some algo, some n, some k0, some k, some m, some e, some ec =>
+      withCodec algo n k0 (fun {p} c =>
+        let res : Option (Except Pff.Facade.DecErr (List (Pff.GF.Elt p) × List (Pff.GF.Elt p))) :=
+          match lib.splitOn ":" with
+          | ["ok", a, b] => match parseHex a, parseHex b with
+            | some a, some b => some (.ok (eltList p a, eltList p b))
+            | _, _ => none
+          | ["err", "ReedSolomonError"] => some (.error .reedSolomonError)
+          | ["err", "RSCodecError"] => some (.error .rsCodecError)
+          | ["err", _] => some (.error .other)
+          | _ => none
+        match res with
+        | none => "bad-op"
+        | some res =>
+          match Pff.Facade.decode (fun _ _ _ _ _ => res) c (eltList p m) (eltList p e) k (en == "1") (Pff.GF.Elt.ofNat p ec) (oe == "1") with
+          | .ok (a, b) => s!"ok {toHex (natList a)} {toHex (natList b)}"
+          | .error .reedSolomonError => "err ReedSolomonError"
+          | .error .rsCodecError => "err RSCodecError"
+          | .error .other => "err other")
+    | _, _, _, _, _, _, _ => "bad-op"
   | ["chk", algo, n, k0, k, msg, ecc] =>
     match algo.toNat?, n.toNat?, k0.toNat?, k.toNat?, parseHex msg, parseHex ecc with
     | some algo, some n, some k0, some k, some m, some e =>
